@@ -483,6 +483,10 @@ class Totality:
         self._row_owner = fn_key
         root = self._root_fn(fn_key)
         owners = [fn_key] + [k for k in self.table if k != fn_key and self._root_fn(k) == root]
+        sc = ir.sole_caller(self.prog, root)
+        if sc is not None:
+            # a private helper with exactly one caller is that caller's code (extract-function refactoring)
+            owners += [k for k in self.table if self._root_fn(k) == sc]
         base = re.sub(r"~\d+$", "", what)
         for owner in owners:
             for r in self.table.get(owner) or ():
